@@ -435,6 +435,11 @@ def stepToks (s : DState) (toks : List String) : DState × String :=
       | some out => (s, hexOfBytes out ++ ";-")
       | none => (s, "PANIC;-")
     | none => bad
+  -- `finalize` as a build without debug assertions runs it: the root hash is computed with counter 0 whatever the chunk counter is
+  | ["G", "finrel", g, root] => match s.gregs.find? (·.1 = g) with
+    | some (_, cs) =>
+      (s, hexOfBytes (if root = "root" then Rs.rootHash genK cs.output else bytesOfWords (Rs.chain genK cs.output)) ++ ";-")
+    | none => bad
   | ["G", "parent", l, r, root] => match bytesOfHex l, bytesOfHex r with
     | some lb, some rb =>
       if lb.length ≠ 32 ∨ rb.length ≠ 32 then bad else
